@@ -65,10 +65,12 @@ def travel_matrix(rnd, nm, zeros=0.15, tmax=6, sym=False, in_name="in-buf", out_
 
 def time_behavior(rnd, kinds=("uni", "gaussian", "poisson", "gamma")):
     k = rnd.choice(kinds)
+    # wide distributions (offset / std larger than typical bases) now and then: raw draws go below
+    # zero, so the clamp at 0 in `update()` matters
     if k == "uni":
-        return {"type": rnd.choice(["uni", "uniform"]), "offset": rnd.choice([1, 2, 3])}
+        return {"type": rnd.choice(["uni", "uniform"]), "offset": rnd.choice([1, 2, 3, 3, 7, 9])}
     if k == "gaussian":
-        return {"type": rnd.choice(["gaussian", "normal"]), "std": rnd.choice([0.5, 1, 2])}
+        return {"type": rnd.choice(["gaussian", "normal"]), "std": rnd.choice([0.5, 1, 2, 2, 6, 8])}
     if k == "poisson":
         return {"type": "poisson"}
     return {"type": "gamma", "scale": rnd.choice([1, 2, 5])}
